@@ -473,7 +473,7 @@ CHECKS['C16'] = {
     'title': 'transfer function and RC filters realise their difference equations exactly', 'level': 'model_checking', 'engine': 'grid', 'jobs': c16_jobs,
     'rule': ('exhaustive enumeration of operation sequences on the real filters against a reference evaluated on the whole recorded history (time-indexed sums, no delay line): transfer function - EVERY numerator and denominator order 0..3 (and, with tap-identifying coefficient vectors and impulse/ramp/sign-pattern words, every order pair up to 11/11 quick, 20/20 thorough), EVERY coefficient vector over {-1,0,1,2} (denominator {-1,0,1} in quick; 3400 filters quick, 7225 thorough), '
              'EVERY input word of length 5 (7 thorough) over {-1,0,1,2}, with a zeroing inserted after 1, 3, .. samples (the suffix must then behave as on a fresh filter); integers, so all comparisons are exact; guard cells around both delay lines, stale contents before init. Linearity (2x, x1+x2) and time invariance (leading zero sample) on ALL pairs of words of length 3 (4 thorough). '
-             'RC filters: alpha in {0,1/8,1/4,1/2,3/4,1} x EVERY word of length 7 (9) over {-2,0,1,3}: low-pass output stays in the range of 0 and the values fed so far and equals the convex combination exactly, high-pass equals alpha*(y + x - x_prev); 400-step settling / decay on constant inputs; extreme-magnitude words (+-REAL_MAX, 1e16) for the range clause; generators on fc, ts in 10^-12..10^12 (in [0,1], strictly inside for 1e-12 <= fc*ts <= 1e12, macros and C++ members agree, monotone). '
+             'RC filters: alpha in {0,1/8,1/4,1/2,3/4,1} x EVERY word of length 7 (9) over {-2,0,1,3}: low-pass output stays in the range of 0 and the values fed so far and equals the convex combination exactly, high-pass equals alpha*(y + x - x_prev); 400-step settling / decay on constant inputs; extreme-magnitude words (+-REAL_MAX, 1e16) for the range clause; generators on fc, ts in 10^-12..10^12 and on cut-off frequencies at both ends of the normal range of the real type with sample times that keep the product moderate (in [0,1], strictly inside for 1e-12 <= fc*ts <= 1e12, macros and C++ members agree, monotone). '
              'states = distinct delay-line contents reached, transitions = filter steps executed, traces_validated_against_impl = input words executed on the real code.'),
     'assumptions': ['integer / dyadic coefficients and inputs make every filter step exact, so outputs are compared with ==', 'unstable filters make the state space infinite, hence the depth bound; stable and nilpotent coefficient sets are included in the same enumeration'],
     'design_ref': '§4.C16', 'technique': 'exhaustive enumeration of all input words up to a depth (with zeroing at every other position) on the real filter against a history-indexed reference; all word pairs for linearity/time-invariance',
